@@ -217,8 +217,9 @@ def matrix_cases(rng, n_grids):
     """-> [(sa, sb, tags, protocol)]: for every grid all ordered pairs (X of the grid, Y of a variant of the grid)"""
     out = []
     k = 0
+    first_ext = rng.randrange(len(MATRIX_EXTS))     # a quick run walks through 6 of the 10 fixed extents, starting anywhere
     for gi in range(n_grids):
-        ext = list(MATRIX_EXTS[gi % len(MATRIX_EXTS)]) if gi < len(MATRIX_EXTS) else \
+        ext = list(MATRIX_EXTS[(first_ext + gi) % len(MATRIX_EXTS)]) if gi < len(MATRIX_EXTS) else \
             rng.choice([[rng.randint(0, 3), rng.randint(0, 3), rng.randint(0, 3)] for _ in range(8)] + MATRIX_EXTS)
         if not any(ext):
             ext = [1, 0, 0]
@@ -226,9 +227,14 @@ def matrix_cases(rng, n_grids):
         img = {"k": "I", "ext": ext, "origin": [rng.choice([0.0, 1.0, -3.0, 7.0]) * sc * (d < 2 or ext[2] > 0 or gi % 2) for d in range(3)],
                "spacing": [sc * rng.choice([1.0, 0.5, -0.25, 3.0]) for _ in range(3)],
                "basis": rng.choice([None, copy.deepcopy(c16io_identity())])}
-        maxc = max(max(abs(img["origin"][d]), abs(img["origin"][d] + img["spacing"][d] * ext[d])) for d in range(3)) or 1.0
         meshed = [d for d in range(3) if ext[d] > 0]
         flat = [d for d in range(3) if ext[d] == 0]
+        if gi % 3 == 1:
+            # directed: the largest |coordinate| is the FAR corner of a direction with negative spacing and negative origin
+            d0 = meshed[0]
+            img["origin"] = [-7.0 * sc if d == d0 else 0.1 * img["origin"][d] for d in range(3)]
+            img["spacing"][d0] = -3.0 * sc
+        maxc = max(max(abs(img["origin"][d]), abs(img["origin"][d] + img["spacing"][d] * ext[d])) for d in range(3)) or 1.0
         first = _grid_reprs(img)
         variants = {}
         for x, y in itertools.product(REPRS, REPRS):
@@ -498,7 +504,7 @@ def large_cases(rng, exts, full_above=20000):
         positions = {"first": 0, "middle": npts // 2 + 1, "block-1024": min(1024, npts - 1), "last": npts - 1}
         pairs = [("S", "S"), ("E", "E"), ("E", "S"), ("R", "S"), ("I", "E"), ("R", "E"), ("I", "S"), ("R", "R"), ("I", "I"), ("I", "R")]
         if npts > full_above:       # the structured classes build their connectivity row by row in Python
-            pairs = [("S", "S"), ("E", "E"), ("R", "R"), ("I", "I"), ("S", "E")]
+            pairs = [("S", "S"), ("E", "E"), ("R", "R"), ("I", "I")]
         n = 0
         for ka, kb in pairs:
             order_a, order_b = ("pixel", "quad") if n % 2 else ("quad", "pixel")
